@@ -238,7 +238,8 @@ class Runnable(UsesState, HasLabel, HasRun, ABC):
                 if raise_run_exceptions:
                     raise e
                 else:
-                    run_output = None
+                    # The failure epilogue has run; don't also process a "result"
+                    return None
             return self._finish_run(
                 run_output,
                 raise_run_exceptions=raise_run_exceptions,
